@@ -1324,3 +1324,31 @@ Proof.
   - unfold wf_attach_item. repeat split; try reflexivity. left. reflexivity.
   - cbn [wf_item]. repeat split; try discriminate; reflexivity.
 Qed.
+
+(* a file without messages: no channel records in the summary, statistics say "0 messages" *)
+Definition x4_file : fsrc :=
+  mem_file (file_of (W x2_opts [x6c] (fun _ b => b) None [CHeader {| h_profile := []; h_library := [] |}; CClose])).
+Definition x4_sm : summ := match info ds_id x4_file with Ok sm => sm | _ => empty_summ end.
+Example x4_dispatch_empty :
+  info ds_id x4_file = Ok x4_sm /\ sm_channels x4_sm = [] /\
+  messages_dispatch ds_id x4_file [] = Ok (MIndexed, x2_ro) /\
+  (exists st, sm_stats x4_sm = Some st /\ st_messages st = 0).
+Proof.
+  split; [vm_compute; reflexivity|]. split; [vm_compute; reflexivity|]. split; [vm_compute; reflexivity|].
+  eexists. split; vm_compute; reflexivity.
+Qed.
+
+(* the lexer state after the header of the example file, and its token stream *)
+Definition x2_s0 : lstate :=
+  {| lx_base := rd (render (x2_recs ++ [IMagic])) None true; lx_chunk := None; lx_ubuf := 0; lx_bufcap := 32;
+     lx_allocs := [] |}.
+Example x2_token_stream_hyps :
+  lo_cb scan_lopts = CbNone /\ Forall (wf_item scan_lopts ds_id) x2_recs /\
+  at_top x2_s0 (rd (render (x2_recs ++ [IMagic])) None true) /\
+  delivers scan_lopts ds_id (file_steps scan_lopts ds_id x2_recs + 1)
+    (u_lex {| u_lex := x2_s0; u_schemas := []; u_channels := []; u_reccap := 0 |})
+    (file_events scan_lopts ds_id x2_recs) EEOF.
+Proof.
+  split; [reflexivity|]. split; [exact x2_recs_wf|]. split; [split; reflexivity|].
+  apply delivers_file with (sk := true); [reflexivity|exact x2_recs_wf|split; reflexivity].
+Qed.
